@@ -985,6 +985,14 @@ func init() {
 		b.VoluntaryExits = append(b.VoluntaryExits, ex, ex)
 		return true
 	})
+	mut("exit_reorder", "accepted", func(m *mctx) bool {
+		b := m.p.B
+		if len(b.VoluntaryExits) < 2 {
+			return false
+		}
+		b.VoluntaryExits[0], b.VoluntaryExits[1] = b.VoluntaryExits[1], b.VoluntaryExits[0]
+		return true
+	})
 	mut("exit_index_out_of_range", "exit", func(m *mctx) bool {
 		ex := phase0.SignedVoluntaryExit{Message: phase0.VoluntaryExit{Epoch: m.p.Epoch, ValidatorIndex: common.ValidatorIndex(len(m.p.Flats) + m.r.Intn(3))}}
 		copy(ex.Signature[:], placeholderSig[:])
